@@ -496,9 +496,50 @@ def key_is_stored(rep: Report, prog: Program, rid: str) -> None:
                   "equal construction misses it", new.where(keyexpr))
 
 
+def key_reads_stable_fields(rep: Report, prog: Program, resolver: Resolver, rid: str) -> None:
+    """R02.14: an intern key is looked up for as long as the process lives, so nothing it is built from may change later.
+    Dimension.define re-assigns `exponents` of every interned dimension (and re-keys Dimension._known, R02.9); naming methods
+    assign `name` / `symbol`.  A key of *another* table that embeds such a field (`dimension.exponents` inside Unit's key) is
+    stale after the next re-assignment: equal constructions miss and intern twins."""
+    core = ("Dimension", "Prefix", "Unit")
+    mutated: Dict[str, str] = {}
+    for q, fi in prog.functions.items():
+        if fi.module in ("hypothesis", "pytest"):
+            continue
+        for st in ast.walk(fi.node):
+            tg = st.targets if isinstance(st, ast.Assign) else ([st.target] if isinstance(st, (ast.AugAssign, ast.AnnAssign)) else [])
+            for t in tg:
+                for x in (t.elts if isinstance(t, (ast.Tuple, ast.List)) else [t]):
+                    if not isinstance(x, ast.Attribute):
+                        continue
+                    owners = {full.split(".")[-1] for k, full in resolver.expr_alts(fi, x.value) if k == "inst"}
+                    owners &= set(core)
+                    if not owners:
+                        continue
+                    ctor = fi.cls in owners and fi.name in ("__init__", "__new__", "__setstate__") and isinstance(x.value, ast.Name) \
+                        and x.value.id == (fi.params()[0] if fi.params() else "self")
+                    if not ctor:
+                        mutated.setdefault(x.attr, f"{q}: `{ast.unparse(st)[:50]}`")
+    for cls in core:
+        new = prog.func(f"{cls}.__new__")
+        hosts = [new]
+        for c in ast.walk(new.node):
+            if isinstance(c, ast.Call) and isinstance(c.func, ast.Attribute) and isinstance(c.func.value, ast.Name) and c.func.value.id in ("cls", cls) \
+                    and f"{cls}.{c.func.attr}" in prog.functions and prog.functions[f"{cls}.{c.func.attr}"] not in hosts:
+                hosts.append(prog.functions[f"{cls}.{c.func.attr}"])
+        bad = [(h, x) for h in hosts for x in ast.walk(h.node) if isinstance(x, ast.Attribute) and isinstance(x.ctx, ast.Load) and x.attr in mutated
+               and not x.attr.startswith("_") and any(k == "inst" and full.split(".")[-1] in core for k, full in resolver.expr_alts(h, x.value))]
+        rep.check(rid, f"{cls}.__new__:key-fields", not bad,
+                  (f"{bad[0][0].qual} reads `{ast.unparse(bad[0][1])}` while interning a {cls}, but {mutated[bad[0][1].attr]} re-assigns that field on interned objects: "
+                   f"keys stored in {cls}._known before go stale and equal constructions intern twins") if bad else "", bad[0][0].where(bad[0][1]) if bad else new.where())
+    rep.analysed["fields_reassigned_after_construction"] = sorted(mutated)
+
+
 def run(rep: Report) -> None:
     prog = Program()
     resolver = Resolver(prog)
+    rep.rule("R02.14", "no intern key is built from a field that something re-assigns on interned objects (Dimension.exponents, names, symbols)", floor=3)
+    key_reads_stable_fields(rep, prog, resolver, "R02.14")
     rep.rule("R02.13", "Dimension and Prefix are interned under exactly the value __init__ stores in their key attributes (no one-sided normalisation)", floor=2)
     key_is_stored(rep, prog, "R02.13")
     rep.rule("R02.12", "operator protocol: a binary operator of the algebra classes rejects an unknown operand by returning NotImplemented, never by "
